@@ -92,6 +92,10 @@ def check_C02(ctx):
     rep.rule("W1", "normalised wire term of _serialize_inner == that of _deserialize_eps_inner, per static case (Zero/Deep, size_of==0)")
     rep.rule("WIRE-*", "cursor discipline of the eps reader: every peek is consumed by a skip of the same amount, position advanced by the same n")
     wire_props(ctx, ("eps",), ("W1", "W2", "W3", "W4", "PROB"), 56)
+    rep.rule("WITNESS", "the documented DeserType substitution as generic compile-pass witnesses (proved by rustc for all instantiations) with negative controls")
+    from . import witness
+    n = witness.run_probes(ctx, rep, "C02")
+    rep.floor("substitution witnesses judged", n, 4)
     return ("Static sibling agreement writer vs eps reader (and thereby eps vs full, both being equal to the writer term) for every "
             "built-in impl, per static case. Equality of produced values is not decided.")
 
@@ -171,6 +175,8 @@ def check_C05(ctx):
         elif len(rep.samples) < 12:
             rep.sample({"alias": name, "normalised": got})
     rep.floor("associated-type equalities", n, 25)
+    from . import witness
+    witness.run_probes(ctx, rep, "C05")
     for name, want in exp["consts"].items():
         if name.startswith("K_"):
             continue
@@ -850,7 +856,10 @@ def main(argv):
         sys.stderr.write("check %s: export failed: %s\n" % (prop, ex))
         ctx.rep.add("BUILD", "export", "the analysed configuration of the repository does not compile: %s" % str(ex)[:300])
         explanation = "export failed"
-    except Exception:
+    except Exception as ex:
+        if ex.__class__.__name__ == "WitnessStale":
+            sys.stderr.write("check %s: a compiling twin / control of a witness no longer behaves as declared (stale witness, not a verdict): %s\n" % (prop, ex))
+            return 3
         traceback.print_exc()
         sys.stderr.write("check %s: internal error (tool defect, not a verdict)\n" % prop)
         return 3
